@@ -18,7 +18,7 @@ R = {
  'util_Deserializer_fetch__uint16_tr': 'Des_fetch_u16', 'util_Deserializer_fetch__uint32_tr': 'Des_fetch_u32', 'util_Deserializer_fetch__uint64_tr': 'Des_fetch_u64',
  'util_Deserializer_fetch__voidp_size_t': 'Des_fetch_raw', 'util_Deserializer_fetchPOD': 'Des_fetchPOD', 'util_Deserializer_fetchNoCopy': 'Des_fetchNoCopy',
  'util_Deserializer_skip': 'Des_skip', 'op_shr__tbox_util_Deserializerr_uint8_tr': 'Des_shr_u8', 'op_shr__tbox_util_Deserializerr_uint16_tr': 'Des_shr_u16',
- 'op_shr__tbox_util_Deserializerr_uint32_tr': 'Des_shr_u32', 'op_shr__tbox_util_Deserializerr_uint64_tr': 'Des_shr_u64', 'util_Deserializer_set_pos': 'Des_set_pos', 'util_Deserializer_checkSize': 'Des_checkSize',
+ 'op_shr__tbox_util_Deserializerr_uint32_tr': 'Des_shr_u32', 'op_shr__tbox_util_Deserializerr_uint64_tr': 'Des_shr_u64', 'util_Deserializer_set_pos': 'Des_set_pos', 'util_Deserializer_checkSize': 'Des_checkSize', 'util_Deserializer_setEndian': 'Des_setEndian',
 }
 
 PRELUDE = r'''
@@ -122,6 +122,16 @@ __CPROVER_assigns(self->pos_)
 __CPROVER_ensures(DWF(self))
 __CPROVER_ensures(__CPROVER_return_value == (OLDPOS + size <= self->size_) && self->pos_ == (__CPROVER_return_value ? OLDPOS + size : OLDPOS))
 ''',
+    ('contract', 'Des_checkSize'): r'''
+__CPROVER_requires(__CPROVER_is_fresh(self, sizeof(*self)) && DWF(self) && need_size < V_MAXSZ)
+__CPROVER_assigns()
+__CPROVER_ensures((__CPROVER_return_value != 0) == (self->pos_ + need_size <= self->size_))
+''',
+    ('contract', 'Des_setEndian'): r'''
+__CPROVER_requires(__CPROVER_is_fresh(self, sizeof(*self)) && DWF(self) && (e == BIG || e == LITTLE))
+__CPROVER_assigns(self->endian_)
+__CPROVER_ensures(self->endian_ == e && __CPROVER_return_value == __CPROVER_old(self->endian_) && DWF(self))
+''',
     ('contract', 'Des_set_pos'): REQ_D + r'''
 __CPROVER_assigns(self->pos_)
 __CPROVER_ensures(DWF(self))
@@ -175,7 +185,7 @@ UNITS = [UnitSpec(
     plugins=[StdVector()], model_headers=['vec_model.h'], more_filters=[('modules/util/serializer.cpp', 'operator>>')],
     emit=[('operator>>', 'tbox::util::Deserializer &, uint8_t &'), ('operator>>', 'tbox::util::Deserializer &, uint16_t &'), ('operator>>', 'tbox::util::Deserializer &, uint32_t &'), 'tbox::util::Serializer::ctor', 'tbox::util::Serializer::append', 'tbox::util::Serializer::appendPOD', 'tbox::util::Deserializer::ctor',
           'tbox::util::Deserializer::fetch', 'tbox::util::Deserializer::fetchPOD', 'tbox::util::Deserializer::fetchNoCopy', 'tbox::util::Deserializer::skip',
-          'tbox::util::Deserializer::set_pos'],
+          'tbox::util::Deserializer::set_pos', 'tbox::util::Deserializer::checkSize', 'tbox::util::Deserializer::setEndian'],
     targets=[
         Target('fetch_u8', HD('Des_fetch_u8', 'uint8_t'), enforce='Des_fetch_u8', clause='fetch u8: bounds, value, position'),
         Target('fetch_u16', HD('Des_fetch_u16', 'uint16_t'), enforce='Des_fetch_u16', clause='fetch u16 in both byte orders'),
@@ -190,6 +200,8 @@ UNITS = [UnitSpec(
                clause='fetchPOD: reverse loop with loop contract, any size (one-before-begin pointer value of the final decrement not checked)'),
         Target('fetchNoCopy', H('  struct util_Deserializer *d; size_t n; Des_fetchNoCopy(d, n);'), enforce='Des_fetchNoCopy', clause='fetchNoCopy: pointer inside the input or NULL'),
         Target('skip', H('  struct util_Deserializer *d; size_t n; Des_skip(d, n);'), enforce='Des_skip', clause='skip never moves past the end'),
+        Target('checkSize', H('  struct util_Deserializer *d; size_t n; Des_checkSize(d, n);'), enforce='Des_checkSize', clause='checkSize: true iff that many bytes are left'),
+        Target('setEndian', H('  struct util_Deserializer *d; int e; Des_setEndian(d, e);'), enforce='Des_setEndian', clause='setEndian: switches the byte order, returns the old one'),
         Target('set_pos', H('  struct util_Deserializer *d; size_t n; Des_set_pos(d, n);'), enforce='Des_set_pos', clause='set_pos keeps pos <= size'),
         Target('append_u8', HS('Ser_append_u8', 'uint8_t'), enforce='Ser_append_u8', clause='append u8: bounds, image, frame'),
         Target('append_u16', HS('Ser_append_u16', 'uint16_t'), enforce='Ser_append_u16', clause='append u16: bounds, image, frame'),
